@@ -74,7 +74,7 @@ PPost ==
   /\ \E o \in Candidates(abs) :
        /\ o.op \in PostOps
        /\ ApplyPre(abs, o)
-       /\ (o.op = "strided" => o.args[1] = 2)
+       /\ (o.op = "strided" => o.args[1] = 2 /\ abs.first[1] % 2 = 0)     \* strided on a re-based view: the index base must be a multiple of the stride (as in ViewAlgebra!Enabled)
        /\ (o.op = "dropped" => o.args[1] = 1)
        /\ (o.op = "index" => o.args[1] = abs.first[1])
        /\ abs' = ApplyF(abs, o)
